@@ -183,23 +183,28 @@ inductive Call (R : Type) where
 def isTrans (t : Char) : Bool := t = 'N' || t = 'T' || t = 'C'
 def maxI (a b : Int) : Int := if a ≤ b then b else a
 
-/-- parameter number reported by XERBLA (dgemm.f: INFO = 1,2,3,4,5,8,10,13) -/
-def GemmCall.illegal {R : Type} (g : GemmCall R) : Option Nat :=
+/-- parameter number reported by XERBLA (dgemm.f: INFO = 1,2,3,4,5,8,10,13).
+    `lenient` = the check of OpenBLAS 0.3.21 (interface/gemm.c), which compares the leading dimensions with the number of
+    rows instead of max(1, rows): a leading dimension 0 passes when the operand has no rows.  The theorems use the
+    reference check (`lenient = false`, which implies the lenient one); the driver uses the lenient one because the
+    differential run is against OpenBLAS. -/
+def GemmCall.illegal {R : Type} (g : GemmCall R) (lenient : Bool := false) : Option Nat :=
   let nrowa := if g.ta = 'N' then g.m else g.k
   let nrowb := if g.tb = 'N' then g.k else g.n
+  let lo : Int := if lenient then 0 else 1
   if !isTrans g.ta then some 1
   else if !isTrans g.tb then some 2
   else if g.m < 0 then some 3
   else if g.n < 0 then some 4
   else if g.k < 0 then some 5
-  else if g.lda < maxI 1 nrowa then some 8
-  else if g.ldb < maxI 1 nrowb then some 10
-  else if g.ldc < maxI 1 g.m then some 13
+  else if g.lda < maxI lo nrowa then some 8
+  else if g.ldb < maxI lo nrowb then some 10
+  else if g.ldc < maxI lo g.m then some 13
   else none
 
 /-- C := alpha op(A) op(B) + beta C on the m×n block (dgemm.f) -/
-def GemmCall.exec {R : Type} [CRing R] (g : GemmCall R) (mem : Mem R) : Mem R :=
-  if g.illegal.isSome then mem
+def GemmCall.exec {R : Type} [CRing R] (g : GemmCall R) (mem : Mem R) (lenient : Bool := false) : Mem R :=
+  if (g.illegal lenient).isSome then mem
   else fun addr =>
     match cmIndex g.c g.ldc g.m g.n addr with
     | some (i, j) => g.alpha * sumZ g.k (fun l => opElem g.ta g.a g.lda mem i l * opElem g.tb g.b g.ldb mem l j) + g.beta * mem addr
@@ -362,17 +367,17 @@ def L1Call.execSwap {R : Type} (g : L1Call R) (mem : Mem R) : Mem R :=
 def dotVal {R : Type} [CRing R] (cjx : Bool) (n x incx y incy : Int) (mem : Mem R) : R :=
   sumZ n (fun i => cjIf cjx (mem (x + i * incx)) * mem (y + i * incy))
 
-def Call.illegal {R : Type} (cplx : Bool) : Call R → Option Nat
-  | .gemm g => g.illegal
+def Call.illegal {R : Type} (cplx : Bool) (lenient : Bool := false) : Call R → Option Nat
+  | .gemm g => g.illegal lenient
   | .gemv g => g.illegal
   | .syrk g => g.illegal false cplx
   | .herk g => g.illegal true true
   | .trsm g => g.illegal
   | _ => none
 
-def Call.exec {R : Type} [CRing R] [DecidableEq R] (cplx : Bool) (c : Call R) (mem : Mem R) : Mem R :=
+def Call.exec {R : Type} [CRing R] [DecidableEq R] (cplx : Bool) (c : Call R) (mem : Mem R) (lenient : Bool := false) : Mem R :=
   match c with
-  | .gemm g => g.exec mem
+  | .gemm g => g.exec mem lenient
   | .gemv g => g.exec mem
   | .syrk g => g.execSyrk cplx mem
   | .herk g => g.execHerk mem
